@@ -226,7 +226,7 @@ async fn main(plan: Plan) -> Outcome {
     for t in 0..plan.tasks {
         let session = session.clone();
         let ins = ins.clone();
-        let kinds: Vec<u64> = (0..plan.per_task).map(|_| tape::choose("c18:kind", 6)).collect();
+        let kinds: Vec<u64> = (0..plan.per_task).map(|_| tape::choose("c18:kind", 7)).collect();
         let explicit: Vec<bool> = (0..plan.per_task).map(|_| tape::chance("c18:explicit", 1, 4)).collect();
         let ts_kind: Vec<u64> = (0..plan.per_task).map(|_| tape::weighted("c18:explicit_value", &[5, 2, 1, 1]) as u64).collect();
         let batch_len: Vec<usize> = (0..plan.per_task).map(|_| 1 + tape::weighted("c18:batch_len", &[2, 3, 1]) as usize).collect();
@@ -271,6 +271,14 @@ async fn main(plan: Plan) -> Outcome {
                                 while rs.next().await.is_some() {}
                             }
                         }
+                    }
+                    6 => {
+                        // An unprepared statement WITH values: prepared on the fly on the
+                        // connection of each attempt, then executed.
+                        let mut st = Statement::new(client::Q_PREPARED_INSERT);
+                        st.set_is_idempotent(true);
+                        st.set_timestamp(ts);
+                        let _ = session.query_unpaged(st, (k as i64, m as i64)).await;
                     }
                     5 => {
                         let mut p = (*ins).clone();
